@@ -5,6 +5,7 @@ package main
 import (
 	"fmt"
 	"go/types"
+	"hash/fnv"
 	"regexp"
 	"sort"
 	"strings"
@@ -162,6 +163,7 @@ const preludeFixed = `(set-option :produce-models true)
 (define-fun go-div ((a Int) (b Int)) Int (ite (>= a 0) (ite (> b 0) (div a b) (- (div a (- b)))) (ite (> b 0) (- (div (- a) b)) (div (- a) (- b)))))
 (define-fun go-mod ((a Int) (b Int)) Int (- a (* b (go-div a b))))
 (declare-fun no-trigger (Int) Bool)
+(declare-fun ref-ty (Int) Int)
 (declare-fun tag-kind (Int) Int)
 (define-fun any-wf ((x Any)) Bool (and (=> ((_ is any-str) x) (= (tag-kind (a-stag x)) 1)) (=> ((_ is any-int) x) (= (tag-kind (a-itag x)) 2)) (=> ((_ is any-bool) x) (= (tag-kind (a-btag x)) 3)) (=> ((_ is any-ref) x) (= (tag-kind (a-rtag x)) 4)) (=> ((_ is any-slice) x) (= (tag-kind (a-sltag x)) 5)) (=> ((_ is any-opq) x) (= (tag-kind (a-otag x)) 6))))
 (declare-fun str-itoa (Int) String)
@@ -203,6 +205,14 @@ func (u *Universe) tag(t types.Type) int {
 	u.tagList = append(u.tagList, k)
 	u.tagTypes = append(u.tagTypes, t)
 	return n
+}
+
+// refTag identifies a struct pointer type in ref-ty facts (a hash, so that it
+// does not depend on the order in which types are met).
+func refTag(t types.Type) int {
+	h := fnv.New32a()
+	h.Write([]byte(typeKey(t)))
+	return int(h.Sum32()&0x3fffffff) + 1
 }
 
 var anyRe = regexp.MustCompile(`\bany\b`)
